@@ -14,6 +14,9 @@ Definition B (s : String.string) : bytes := String.list_byte_of_string s.
 
 Definition byte_eqb (a b : byte) : bool := Byte.eqb a b.
 
+(* linear-time reverse (List.frev is quadratic when extracted); List.rev_alt relates the two *)
+Definition frev {A : Type} (l : list A) : list A := rev_append l [].
+
 Section ListOps.
   Context {A : Type} (eqb : A -> A -> bool).
 
@@ -33,7 +36,7 @@ Section ListOps.
     end.
 
   (* l.endswith(s) *)
-  Definition suffixb (s l : list A) : bool := prefixb (rev s) (rev l).
+  Definition suffixb (s l : list A) : bool := prefixb (frev s) (frev l).
 
   (* l.find(pat): index of the leftmost occurrence *)
   Fixpoint find_at (pat l : list A) (i : nat) : option nat :=
@@ -49,12 +52,12 @@ Section ListOps.
      separator that are still to be dropped. Structural on [l]. *)
   Fixpoint split_aux (sep cur l : list A) (skip : nat) : list (list A) :=
     match l with
-    | [] => [rev cur]
+    | [] => [frev cur]
     | x :: t =>
         match skip with
         | S k => split_aux sep cur t k
         | O => if prefixb sep l
-               then rev cur :: split_aux sep [] t (length sep - 1)
+               then frev cur :: split_aux sep [] t (length sep - 1)
                else split_aux sep (x :: cur) t 0
         end
     end.
@@ -126,7 +129,7 @@ Fixpoint lstrip (l : bytes) : bytes :=
   | x :: t => if is_space x then lstrip t else l
   | [] => []
   end.
-Definition strip (l : bytes) : bytes := rev (lstrip (rev (lstrip l))).
+Definition strip (l : bytes) : bytes := frev (lstrip (frev (lstrip l))).
 
 Fixpoint all_b {A} (f : A -> bool) (l : list A) : bool :=
   match l with [] => true | x :: t => f x && all_b f t end.
